@@ -153,6 +153,33 @@ Theorem later_acks_any_position : forall cfg v ls i, nth_error ls i = Some Ack -
 Proof. exact later_acks_everywhere. Qed.
 Print Assumptions later_acks_any_position.
 
+(* ---- "… and sticks to it": all subsequent traffic --------------------------------------------
+   After Connect has proceeded, for EVERY list of events — requests written, the answers their
+   callers get (success, any status in an ERROR_MESSAGE or in the expected response, wrong type,
+   none), keep-alives acknowledged — the client's version stays what it was … *)
+Theorem version_invariant_under_traffic : forall cfg evs s,
+  p_ver (fold_left (post_step cfg) evs s) = p_ver s.
+Proof. exact post_version_invariant. Qed.
+Print Assumptions version_invariant_under_traffic.
+
+(* … so, whatever happened during negotiation (keep-alives included) and whatever traffic follows,
+   the version is still the negotiated one at the end and every frame written carries it *)
+Theorem all_subsequent_traffic_negotiated : forall cfg cmax k1 k2 r1 r2 evs, conforming cfg = true ->
+  let s := session_post cfg cmax k1 k2 r1 r2 evs in
+  p_ver (snd s) = n_version (fst s) /\
+  Forall (fun f => m_ver f = n_version (fst s) \/ is_neg_type (m_typ f) = true) (p_out (snd s)).
+Proof. exact post_traffic_negotiated_l. Qed.
+Print Assumptions all_subsequent_traffic_negotiated.
+
+(* acknowledgements carry the current version under every configuration, wherever they fall in
+   the traffic (no caller sends a KEEPALIVE_ACK of its own) *)
+Theorem subsequent_acks_negotiated : forall cfg evs s v, p_ver s = v ->
+  Forall (fun f => m_typ f = MsgKeepAliveAck -> m_ver f = v) (p_out s) ->
+  (forall t p, In (PRequest t p) evs -> t <> MsgKeepAliveAck) ->
+  Forall (fun f => m_typ f = MsgKeepAliveAck -> m_ver f = v) (p_out (fold_left (post_step cfg) evs s)).
+Proof. exact post_acks_ok. Qed.
+Print Assumptions subsequent_acks_negotiated.
+
 (* ---- consistency with the client LTS (Client/Model.v, the model behind C03–C10) ----------
    [negotiate]/[session] above and the LTS's negotiation phases are two models of the same Go
    code, each tied to Go by its own check.  Here: for every C06 configuration nc, every setting fu
@@ -208,4 +235,12 @@ Proof. vm_compute. reflexivity. Qed.
 Example C06_example_keepalive_both :
   n_frames (negotiate_ka (mkCfg true true) V1_1 1 1 (Resp 64 32 0) (Resp 0 0 0))
   = [mkMsg 2 46 []; mkMsg 2 72 []; mkMsg 2 47 [1]; mkMsg 1 72 []].
+Proof. vm_compute. reflexivity. Qed.
+(* a request answered with ERROR_MESSAGE / M_UnsupportedVersion after 1.1 was negotiated: the next
+   acknowledgement and request still carry 1.1 *)
+Example C06_example_traffic :
+  session_post (mkCfg true true) V1_1 0 0 (Resp 32 64 0) (Resp 0 0 0)
+    [PRequest 21 [0;0;0;1]; PAnswer (AnsStatus true 110); PKeepAlive; PRequest 22 [0;0;0;2]; PAnswer AnsSuccess]
+  = (mkRes [mkMsg 2 46 []; mkMsg 2 47 [2]] Proceeds 2,
+     mkPost 2 [mkMsg 2 21 [0;0;0;1]; mkMsg 2 72 []; mkMsg 2 22 [0;0;0;2]]).
 Proof. vm_compute. reflexivity. Qed.
